@@ -1,11 +1,12 @@
 #!/usr/bin/env python3
 """Confirm a seeded change independently and keep it under /verif/seeded/<id>/.
-usage: tools/keepseed.py C11 m1 [--caught-by "C11 quick"]
+usage: [SEED_SRC=/tmp/seed2/out SEED_PREFIX=r2] tools/keepseed.py C11 m1
 Runs in a scratch worktree of /repo's HEAD: patch applies; full test-suite passes with it; demo exits 1 with it and 0
 without it.  The worktree is removed afterwards."""
 import json, os, shutil, subprocess, sys, tempfile
 pid, mk = sys.argv[1], sys.argv[2]
-src = '/tmp/seed/out/%s' % pid
+src = os.path.join(os.environ.get('SEED_SRC', '/tmp/seed/out'), pid)
+prefix = os.environ.get('SEED_PREFIX', '')
 patch = os.path.join(src, mk + '.diff'); demo = os.path.join(src, mk + '_demo.py'); meta = os.path.join(src, mk + '.json')
 wt = tempfile.mkdtemp(prefix='seedverify-')
 os.rmdir(wt)
@@ -29,7 +30,7 @@ finally:
 ok = res.get('patch_applies') and res.get('demo_without_change_rc') == 0 and res.get('demo_with_change_rc') == 1 and '64 passed' in res.get('tests_with_change', '')
 print(json.dumps(res, indent=1)); print('CONFIRMED' if ok else 'NOT CONFIRMED')
 if ok:
-    dst = '/verif/seeded/%s-%s' % (pid, mk); os.makedirs(dst, exist_ok=True)
+    dst = '/verif/seeded/%s-%s%s' % (pid, prefix, mk); os.makedirs(dst, exist_ok=True)
     shutil.copy(patch, os.path.join(dst, 'patch.diff')); shutil.copy(demo, os.path.join(dst, 'demo.py'))
     m = json.load(open(meta))
     m['confirmed'] = {'ran': ['git worktree of /repo HEAD (%s)' % subprocess.run('git -C /repo rev-parse --short HEAD', shell=True, stdout=subprocess.PIPE, text=True).stdout.strip(),
